@@ -299,6 +299,9 @@ func (tr *Trans) attachInvariants(res *FuncResult) {
 			if strings.HasPrefix(v.Name, "nvisited$") && !innerMod[v] {
 				auto("nvisited", fmt.Sprintf("(>= %s 0)", cur(v)))
 			}
+			if v.Sort == "Slice" && strings.HasPrefix(v.Name, "c$") && !tr.declaredInLoop(l, v) && tr.ownedSliceCell(v) {
+				auto("owned:"+v.Name, fmt.Sprintf("(or (= (s_arr %s) 0) (> (s_arr %s) %s))", cur(v), cur(v), old(tr.alloc)))
+			}
 			if b, ok := tr.rangeIntBound[v]; ok {
 				auto("rangeint:"+v.Name, fmt.Sprintf("(and (<= 0 %s) (< %s %s))", cur(v), cur(v), b))
 			}
@@ -467,4 +470,56 @@ func markOld(sc *Scope, n Node) {
 			sc.vars[name] = v
 		}
 	}
+}
+
+// ownedSliceCell: every assignment to the slice variable is nil, a fresh allocation or an append result.
+func (tr *Trans) ownedSliceCell(v *MVar) bool {
+	n := 0
+	for _, b := range tr.il.Blocks {
+		for _, s := range b.Stmts {
+			if s.V != v {
+				continue
+			}
+			if s.K == SHavoc {
+				return false
+			}
+			if s.K != SAssign {
+				continue
+			}
+			n++
+			e := s.E
+			if d, ok := tr.defs[e]; ok {
+				e = d
+			}
+			switch {
+			case e == "(mk_slice 0 0)":
+			case strings.HasPrefix(e, "(mk_slice append!"), strings.HasPrefix(e, "(mk_slice mkslice!"), strings.HasPrefix(e, "(mk_slice arr!"):
+			default:
+				return false
+			}
+		}
+	}
+	return n > 0
+}
+
+// declaredInLoop: the variable is (re)declared inside the loop body (its zero-initialisation is part of the body),
+// so it carries nothing from one iteration to the next.
+func (tr *Trans) declaredInLoop(l *ILLoop, v *MVar) bool {
+	zero := ""
+	switch v.Sort {
+	case "Slice":
+		zero = "(mk_slice 0 0)"
+	case "Int":
+		zero = "0"
+	default:
+		return false
+	}
+	for b := range l.Body {
+		for _, s := range b.Stmts {
+			if s.K == SAssign && s.V == v && s.E == zero {
+				return true
+			}
+		}
+	}
+	return false
 }
